@@ -270,6 +270,8 @@ func runC16(c *config) {
 			o.Pass("print_parse")
 		}
 	}
+	// histories: types completed or changed after they were first printed or compared (c16hist.go)
+	c16Histories(c, newRng(c.seed, "c16hist"))
 }
 
 // ---- lengths at the boundaries of their range
